@@ -1,6 +1,6 @@
 (* C03 — UDP tunnels preserve datagram payloads, boundaries and reply addressing.
    Only statements here; proofs live in Proofs/.  Every theorem is followed by Print Assumptions. *)
-From FRP Require Import Model.Base64 Model.Udp Proofs.Base64Proofs Proofs.UdpProofs Proofs.RegistryCheck.
+From FRP Require Import Model.Base64 Model.Udp Proofs.Base64Proofs Proofs.UdpProofs Proofs.UdpFwdProofs Proofs.RegistryCheck.
 Open Scope Z_scope.
 
 Definition today_registry := registry type_consts type_map.
@@ -64,3 +64,121 @@ Example C03_example_packet :
   upacket_fits (new_udp_packet (bs "abc") None a) = true /\
   4 * ((3 + 2) / 3) + udp_overhead None a = 57 /\ uaddr_small a.
 Proof. vm_compute. repeat split; discriminate. Qed.
+
+(** * the tunnel: ForwardUserConn, work-connection pumps, Forwarder — all event histories *)
+
+(* Notation: [usent c h] = datagrams (user address, payload as read into the uc_buf-byte buffer)
+   in history h; [ubackend tr] = datagrams written to the backend in trace tr; [ucount f l] =
+   number of elements of l satisfying f, so "for every f, count f A <= count f B" is multiset
+   inclusion A <= B. *)
+
+(* every datagram handed to the backend is one datagram some user sent, with that user's address
+   and exactly its payload, and no datagram is handed over more often than it was sent: never
+   corrupted, merged, split or duplicated, across any number of work-connection replacements *)
+Theorem C03_delivered_is_sent : forall c h (f : uview -> bool),
+  ucount f (ubackend (snd (urun c uinit h))) <= ucount f (usent c h).
+Proof. exact delivered_is_sent. Qed.
+Print Assumptions C03_delivered_is_sent.
+
+(* ... and never truncated for payloads up to the configured packet size *)
+Theorem C03_payload_untruncated : forall c d, blen d <= uc_buf c -> uread c d = d.
+Proof. exact uread_id. Qed.
+Print Assumptions C03_payload_untruncated.
+
+(* exact accounting: sent = delivered + still in the pipeline + dropped (each with its reason) *)
+Theorem C03_forward_accounting : forall c h (f : uview -> bool),
+  ucount f (usent c h) =
+  ucount f (ubackend (snd (urun c uinit h))) +
+  ucount f (map upview (ufwd_pending (fst (urun c uinit h)))) +
+  ucount f (udropped_fwd (snd (urun c uinit h))).
+Proof. exact (fun c h f => fwd_accounting c f h). Qed.
+Print Assumptions C03_forward_accounting.
+
+Theorem C03_reply_accounting : forall c h (f : uview -> bool),
+  ucount f (utagged (snd (urun c uinit h))) =
+  ucount f (uuser (snd (urun c uinit h))) +
+  ucount f (map upview (urev_pending (fst (urun c uinit h)))) +
+  ucount f (udropped_rev (snd (urun c uinit h))).
+Proof. exact (fun c h f => rev_accounting c f h). Qed.
+Print Assumptions C03_reply_accounting.
+
+(* the only reasons a datagram or a reply is ever lost for: a full 1024-slot queue
+   (select-default) or a dying / replaced work connection — provided the read buffer is small
+   enough for every frame to fit (uc_buf <= 7563), user addresses are of the usual size and
+   the OS can open sockets.  Bad base64, a nil address or an oversize frame never occur. *)
+Theorem C03_drop_only_when_full_or_replacing : forall c h,
+  ucfg_ok c -> forallb uev_ok h = true ->
+  forallb uout_drop_ok (snd (urun c uinit h)) = true.
+Proof. exact drops_only_allowed. Qed.
+Print Assumptions C03_drop_only_when_full_or_replacing.
+
+(* at light load (nothing dropped, pipeline drained) exactly the datagrams sent have arrived,
+   and exactly the replies read have reached their users *)
+Theorem C03_light_load_all_arrive : forall c h (f : uview -> bool),
+  udropped_fwd (snd (urun c uinit h)) = [] -> ufwd_pending (fst (urun c uinit h)) = [] ->
+  ucount f (ubackend (snd (urun c uinit h))) = ucount f (usent c h).
+Proof. exact light_load_all_arrive. Qed.
+Print Assumptions C03_light_load_all_arrive.
+
+Theorem C03_light_load_all_replies_arrive : forall c h (f : uview -> bool),
+  udropped_rev (snd (urun c uinit h)) = [] -> urev_pending (fst (urun c uinit h)) = [] ->
+  ucount f (uuser (snd (urun c uinit h))) = ucount f (utagged (snd (urun c uinit h))).
+Proof. exact light_load_all_replies_arrive. Qed.
+Print Assumptions C03_light_load_all_replies_arrive.
+
+(* reply addressing.  (1) the socket map is injective on live entries; (2) a reply read on socket
+   s is tagged with the address whose first datagram created s; (3) a socket is created once, so
+   that address is unique; (4) every datagram ever written to s came from the same printed
+   address; (5) what users receive is a sub-multiset of the tagged replies (address and payload) *)
+Theorem C03_reply_to_originating_user_only : forall c h,
+  let st := fst (urun c uinit h) in
+  let tr := snd (urun c uinit h) in
+  (forall k k' s, In (k, s) (c_map st) -> In (k', s) (c_map st) -> k = k') /\
+  (forall s ra d, In (OTagged s ra d) tr -> In (OSockNew s ra) tr) /\
+  (forall s ra ra', In (OSockNew s ra) tr -> In (OSockNew s ra') tr -> ra = ra') /\
+  (forall s ra d, In (OBackend s ra d) tr ->
+     exists ra0, In (OSockNew s ra0) tr /\ uaddr_string ra0 = uaddr_string ra) /\
+  (forall f : uview -> bool, ucount f (uuser tr) <= ucount f (utagged tr)).
+Proof.
+  intros c h. cbv zeta. split; [|split; [|split; [|split]]].
+  - intros k k' s. exact (sock_map_injective c h k k' s).
+  - exact (proj1 (reply_tagging c h)).
+  - exact (proj1 (proj2 (reply_tagging c h))).
+  - exact (proj2 (proj2 (reply_tagging c h))).
+  - intros f. exact (replies_delivered_were_tagged c h f).
+Qed.
+Print Assumptions C03_reply_to_originating_user_only.
+
+(* after the reader goroutine of a socket has ended (idle timeout, or its Forwarder was replaced)
+   the socket is never created again, never written to and no reply is ever read from it,
+   whatever follows (new users, new work connections); a late datagram for it is discarded.
+   Socket identity is the Go object; reuse of the same ephemeral PORT NUMBER by the OS for a
+   later socket is outside the model (residue, see design/C03.md) *)
+Theorem C03_no_crosstalk_after_socket_reuse : forall c h1 h2 s,
+  In (OSockClosed s) (snd (urun c uinit h1)) ->
+  (forall o, In o (snd (urun c (fst (urun c uinit h1)) h2)) -> ~ out_speaks s o) /\
+  (forall st d, ~ In s (map fst (ulive st)) -> ustep c st (EBackendReply s d) = (st, [OLate s d])).
+Proof.
+  intros c h1 h2 s Hc. split.
+  - intros o Ho. exact (closed_socket_is_silent c h1 h2 s o Hc Ho).
+  - intros st d. apply late_reply_discarded.
+Qed.
+Print Assumptions C03_no_crosstalk_after_socket_reuse.
+
+(* non-vacuity: two users behind one IP, an idle timeout, a late reply and a replacement *)
+Example C03_example_history :
+  let c := {| uc_buf := 1500 |} in
+  let a := {| ua_ip := bs "127.0.3.10"; ua_port := 40001; ua_zone := [] |} in
+  let b := {| ua_ip := bs "127.0.3.10"; ua_port := 40002; ua_zone := [] |} in
+  let h := [EWorkConnReplaced; EUserSend a (bs "one"); EUserSend b (bs "two"); ESrvSend; ESrvSend;
+            ECliRecv; ECliRecv; ECliPump true; ECliPump true; EBackendReply 1 (bs "TWO"); EBackendReply 0 (bs "ONE");
+            ECliSend; ECliSend; ESrvRecv; ESrvRecv; ESrvDeliver; ESrvDeliver;
+            ESockIdle 0; EBackendReply 0 (bs "late"); EUserSend a (bs "again"); ESrvSend; ECliRecv; ECliPump true;
+            EWorkConnReplaced; EBackendReply 2 (bs "lost")] in
+  snd (urun c uinit h) =
+    [OSockNew 0 (Some a); OBackend 0 (Some a) (bs "one"); OSockNew 1 (Some b); OBackend 1 (Some b) (bs "two");
+     OTagged 1 (Some b) (bs "TWO"); OTagged 0 (Some a) (bs "ONE"); OUser b (bs "TWO"); OUser a (bs "ONE");
+     OSockClosed 0; OLate 0 (bs "late"); OSockNew 2 (Some a); OBackend 2 (Some a) (bs "again");
+     OTagged 2 (Some a) (bs "lost"); ODropRev DReplacing (new_udp_packet (bs "lost") None (Some a)); OSockClosed 2] /\
+  ucfg_ok c /\ forallb uev_ok h = true.
+Proof. vm_compute. split; [reflexivity|]. split; [split; discriminate|reflexivity]. Qed.
